@@ -182,6 +182,21 @@ pub fn token_mutants(p: &TokenParts, assertion_supported: bool, seed: u64, full_
         push(mid("assertion-append", i, 0), p.payload.to_vec(), p.footer.to_vec(), a);
         push(mid("assertion-replace", i, 0), p.payload.to_vec(), p.footer.to_vec(), extra.to_vec());
     }
+    // 7. interior deletions at the field boundaries (the total shrinks, both ends stay)
+    for (bi, b) in [p.prefix.min(pl), body_end].iter().enumerate() {
+        for k in 1..=3usize {
+            if b + k <= pl {
+                let mut x = p.payload[..*b].to_vec();
+                x.extend_from_slice(&p.payload[b + k..]);
+                push(mid("delete-after-boundary", bi * 16 + k, 0), x, p.footer.to_vec(), p.assertion.to_vec());
+            }
+            if *b >= k {
+                let mut x = p.payload[..b - k].to_vec();
+                x.extend_from_slice(&p.payload[*b..]);
+                push(mid("delete-before-boundary", bi * 16 + k, 0), x, p.footer.to_vec(), p.assertion.to_vec());
+            }
+        }
+    }
     out
 }
 
@@ -251,6 +266,28 @@ pub fn blob_mutants(blob: &[u8], boundaries: &[usize], full_limit: usize, edge: 
                 x.extend_from_slice(&blob[*b..]);
                 push(mid("extend", bi * 16 + k, fillb as usize), x);
             }
+        }
+    }
+    // interior deletions: 1..3 bytes removed right after / right before every field boundary,
+    // plus the whole run of zero bytes that follows a boundary (a stripped big-endian integer)
+    for (bi, b) in bs.iter().enumerate() {
+        for k in 1..=3usize {
+            if b + k <= n {
+                let mut x = blob[..*b].to_vec();
+                x.extend_from_slice(&blob[b + k..]);
+                push(mid("delete-after-boundary", bi * 16 + k, 0), x);
+            }
+            if *b >= k {
+                let mut x = blob[..b - k].to_vec();
+                x.extend_from_slice(&blob[*b..]);
+                push(mid("delete-before-boundary", bi * 16 + k, 0), x);
+            }
+        }
+        let zeros = blob[*b..].iter().take_while(|x| **x == 0).count();
+        if zeros > 3 && b + zeros < n {
+            let mut x = blob[..*b].to_vec();
+            x.extend_from_slice(&blob[b + zeros..]);
+            push(mid("delete-zero-run", bi, zeros), x);
         }
     }
     out
